@@ -152,6 +152,16 @@ func (r *Router) NewIQResultRoute(ctx context.Context, id string) chan stanza.IQ
 	return route.result
 }
 
+// removeIQResultRoute unregisters the pending result route of a request that
+// could not be sent. It only removes the entry if it still belongs to that request.
+func (r *Router) removeIQResultRoute(id string, result chan stanza.IQ) {
+	r.IQResultRouteLock.Lock()
+	if route, ok := r.IQResultRoutes[id]; ok && route.result == result {
+		delete(r.IQResultRoutes, id)
+	}
+	r.IQResultRouteLock.Unlock()
+}
+
 func (r *Router) Match(p stanza.Packet, match *RouteMatch) bool {
 	for _, route := range r.routes {
 		if route.Match(p, match) {
